@@ -1268,12 +1268,12 @@ func (c *Ctx) script(asserts []*Term, values []*Term, abs bool) (string, bool) {
 	if abs {
 		nm[absMarker] = "abs"
 	}
-	for _, t := range order {
+	for k, t := range order {
 		if len(t.Args) == 0 || t.hb {
 			continue
 		}
 		if ref[t] > 1 || t.Op == "store" || t.Op == "ite" {
-			name := fmt.Sprintf("t%d", t.id)
+			name := fmt.Sprintf("t%d", k)
 			sb.WriteString("(define-fun " + name + " () " + t.S.s + " ")
 			c.print(&sb, t, nm, 0)
 			sb.WriteString(")\n")
@@ -1342,7 +1342,8 @@ func (c *Ctx) contentAxioms(asserts []*Term) []*Term {
 		visit(a)
 	}
 	var out []*Term
-	for name, ts := range apps {
+	for _, name := range sortedStrKeys(apps) {
+		ts := apps[name]
 		i := idx[name]
 		sort.Slice(ts, func(a, b int) bool { return ts[a].id < ts[b].id })
 		if len(ts) > 24 {
